@@ -17,6 +17,7 @@ conditions under which it is applied); none of them deletes or reorders an effec
                                                         ->  let mut X = Vec::new(); for Q in it { S; X.push(v); }
               let X = it.map(|Q| e).collect::<Vec<_>>();->  let mut X = Vec::new(); for Q in it { X.push(e); }
   N-SUM       let X: int = it.map(|Q| e).sum();         ->  let mut X = 0; for Q in it { X += e; }
+  N-FOLD      it.fold(init, |A, X| e)                   ->  { let mut A = init; for X in it { A = e; } A }     (try_fold likewise under `?` or as a fn's result)
   N-OPT       o.is_some_and(|P| b)                      ->  if let Some(P) = o { b } else { false }
               o.map_or(d, |P| b)   (d literal / path)   ->  if let Some(P) = o { b } else { d }
               o.map(|P| b)         (Option receiver)    ->  if let Some(P) = o { Some(b) } else { None }
@@ -158,6 +159,12 @@ class Normaliser:
         n = out
         if k == "mcall":
             n = self.opt_combinators(n)
+            k = n.get("k")
+        if k == "mcall" and _is_iter(n, "fold"):
+            n = self.fold(n, None)
+            k = n.get("k")
+        if k == "try" and _is_iter(n["e"], "try_fold"):
+            n = self.fold(n["e"], n)
             k = n.get("k")
         if k == "match":
             n = self.match_option(n)
@@ -540,6 +547,36 @@ class Normaliser:
             nb["stmts"] = stmts[:-1] + [dict(last, e=new) if last.get("k") == "semi" else new]
         return nb
 
+    # ------------------------------------------------------------ N-FOLD
+    def fold(self, n, try_node, tail_ok=False):
+        """it.fold(init, |A, X| body)          ->  { let mut A = init; for X in it { A = body; } A }
+           it.try_fold(init, |A, X| body)?     ->  { let mut A = init; for X in it { A = body?; } A }
+           it.try_fold(init, |A, X| body)      ->  { let mut A = init; for X in it { A = body?; } Ok(A) }   as the result of a fn with the same Result type"""
+        if len(n.get("a", ())) != 2:
+            return try_node or n
+        c = _closure_arg(n, 1, nparams=2)
+        if c is None or _has(c["body"], ("ret",)) or c["params"][0].get("k") != "bind" or "sub" in c["params"][0]:
+            return try_node or n
+        is_try = n.get("name") == "try_fold"
+        if not is_try and _has(c["body"], ("try",)):
+            return try_node or n
+        s_ = n.get("s")
+        acc = dict(c["params"][0])
+        acc["mode"] = "BindingMode(No, Mut)"
+        body = c["body"]
+        if is_try:
+            proto = try_node or {"k": "try", "s": s_, "t": acc.get("t")}
+            body = dict(proto, e=body, t=acc.get("t"))
+        asg = {"k": "assign", "s": s_, "t": "()", "l": _local(acc, s_), "r": body, "gen": True}
+        loop = {"k": "for", "s": s_, "t": "()", "pat": c["params"][1], "iter": n["recv"], "body": {"k": "block", "s": s_, "stmts": [_as_stmt(asg)], "gen": True}, "gen": True}
+        let = {"k": "let", "s": s_, "pat": acc, "init": n["a"][0], "gen": True}
+        res = _local(acc, s_)
+        if is_try and try_node is None:
+            res = {"k": "call", "s": s_, "t": n.get("t"), "q": OKQ, "d": "core::result::Result::Ok::{constructor#0}", "a": [res], "gen": True,
+                   "f": {"k": "path", "s": s_, "r": "ctor", "q": OKQ, "t": "fn"}}
+        self.hit("N-FOLD")
+        return {"k": "block", "s": s_, "stmts": [let, _as_stmt(self.for_loop(loop))], "tail": res, "t": (try_node or n).get("t"), "gen": True}
+
     # ------------------------------------------------------------ N-OPT
     def opt_combinators(self, n):
         nm, q = n.get("name"), n.get("q") or ""
@@ -571,6 +608,22 @@ class Normaliser:
             if c is not None and simple and not _has(c["body"], ("ret", "try")):
                 self.hit("N-OPT")
                 return iflet(c["params"][0], c["body"], d, n.get("t"))
+        if nm == "and_then" and len(n.get("a", ())) == 1:
+            c = _closure_arg(n)
+            if c is not None and not _has(c["body"], ("ret", "try")):
+                self.hit("N-OPT")
+                return iflet(c["params"][0], c["body"], {"k": "path", "s": s, "t": n.get("t"), "r": "ctor", "q": NONE, "gen": True}, n.get("t"))
+        if nm in ("or", "unwrap_or") and len(n.get("a", ())) == 1 and _pure_place(n["a"][0]):
+            # o.or(d) -> if let Some(v) = o { Some(v) } else { d };   o.unwrap_or(d) -> if let Some(v) = o { v } else { d }      (d is a place / literal: no effect to reorder)
+            self.fresh = getattr(self, "fresh", 3000000) + 1
+            inner_t = rt[rt.index("<") + 1:-1] if "<" in rt and rt.endswith(">") else None
+            vb = {"k": "bind", "name": "__v", "hid": self.fresh, "mode": "BindingMode(No, Not)", "t": inner_t}
+            v = _local(vb, s)
+            if nm == "or":
+                v = {"k": "call", "s": s, "t": n.get("t"), "q": SOME, "d": "core::option::Option::Some::{constructor#0}", "a": [v], "gen": True,
+                     "f": {"k": "path", "s": s, "r": "ctor", "q": SOME, "t": "fn"}}
+            self.hit("N-OPT")
+            return iflet(vb, v, n["a"][0], n.get("t"))
         if nm == "map" and len(n.get("a", ())) == 1:
             c = _closure_arg(n)
             if c is not None and not _has(c["body"], ("ret", "try")):
@@ -693,6 +746,7 @@ def _rets(n):
 class Inliner:
     def __init__(self, by_q, nz):
         self.by_q, self.nz, self.k = by_q, nz, 0
+        self.private_only = False
         self.inlined = set()
 
     def eligible(self, caller, cb, resolved=False):
@@ -708,6 +762,8 @@ class Inliner:
         cm, km = mod(cb["q"]), mod(caller["q"])
         near = same_adt or cm == km or cm.startswith(km + "::") or km.startswith(cm + "::") or cm.rsplit("::", 1)[0] == km.rsplit("::", 1)[0]
         if not near or (cb.get("trait_item") and not resolved):
+            return False
+        if self.private_only and (cb.get("vis") == "pub" or cb.get("trait_item")):
             return False
         parts = _user_parts(cb)
         if parts is None or "impl " in (cb.get("out_t") or "") or "Iterator" in (cb.get("out_t") or ""):
@@ -780,6 +836,8 @@ class Inliner:
                 tail = dict(try_node, e=tail)
         self.nz.hit("N-CALL")
         self.inlined.add(q)
+        if not stmts and tail is not None:
+            return tail        # a one-expression helper: the expression itself
         out = {"k": "block", "s": call.get("s"), "stmts": stmts, "t": (try_node or call).get("t"), "gen": True, "inl": q, "um": True}
         if tail is not None:
             out["tail"] = tail
@@ -934,13 +992,21 @@ def normalise_body(b, nz=None):
     before = dict(nz.applied)
     nb = dict(b)
     nb["body"] = nz.rw(b["body"])
+    bd = nb["body"]
+    if bd.get("k") == "block" and bd.get("tail") is not None and _is_iter(ir.unparen(bd["tail"]), "try_fold") and (b.get("out_t") or "") == (ir.unparen(bd["tail"]).get("t") or "") and \
+            (b.get("out_t") or "").startswith(("std::result::Result<", "core::result::Result<")):
+        r_ = nz.fold(ir.unparen(bd["tail"]), None)
+        if r_.get("k") == "block":
+            nb["body"] = dict(bd, tail=r_)
     if nz.applied == before:
         return b
     nb["_normalised"] = True
     return nb
 
 
-def normalise_program(crates, guard=True, inline=True):
+def normalise_program(crates, guard=True, inline=2):
+    """inline: 0 = helpers stay, 1 = only private (non-pub, non-trait) helpers are put back into their callers, 2 / True = every small
+    function of the same type / module"""
     """(crates', {rewrite: count}) with every body rewritten; untouched bodies are shared, not copied"""
     nz = Normaliser(guard)
     out = {}
@@ -951,6 +1017,7 @@ def normalise_program(crates, guard=True, inline=True):
             by_q.setdefault(b["q"], []).append(b)
     # helpers are put back into their callers first (in the form they were written), then everything is normalised
     inl = Inliner(by_q, nz)
+    inl.private_only = (inline == 1 and inline is not True)
     for key, d in crates.items():
         d2 = dict(d)
         nb = []
